@@ -41,6 +41,7 @@ def run(ctx):
     ctx.guard(rule_g, ctx, ix)
     ctx.guard(rule_h, ctx, ix, reg)
     ctx.guard(rule_i, ctx, ix)
+    ctx.guard(rule_j, ctx, ix)
     # every registered loader version must still load: back-references are resolved after the object is published
     from ..report import BorrowedCtx
     from .C02 import rule_f as _backrefs
@@ -660,3 +661,44 @@ def rule_i(ctx, ix):
     g = un.resolve_func('object')
     deco = any('disable' in unparse(d) for d in g.raw_node.decorator_list)
     ctx.ob(R, g.construct, 'object() runs under the decorator (read from the code: %s)' % deco, True, nontrivial=False)
+
+
+def rule_j(ctx, ix):
+    """The upgrade of version-1 collections (plain subsets -> subset groups) hands selection, style and label of the old subset
+    to the new group as they are: by assignment, or through a parameter the callee does not replace when it is falsy."""
+    R = 'C12.j'
+    ctx.describe(R, 'coerce_subset_groups transfers state, style and label of a plain subset unchanged (no truth-value defaulting on the way)', floor=3)
+    f = ix.func('glue.core.subset_group.coerce_subset_groups')
+    loops = [lp for lp in ast.walk(f.node) if isinstance(lp, ast.For) and unparse(lp.iter).endswith('.subsets')]
+    if len(loops) != 1 or not isinstance(loops[0].target, ast.Name):
+        raise AnalysisError('coerce_subset_groups: the loop over data.subsets is no longer recognised')
+    old = loops[0].target.id
+    dc = ix.cls('glue.core.data_collection.DataCollection')
+    for attr in ('subset_state', 'style', 'label'):
+        src = '%s.%s' % (old, attr)
+        how, ok, detail, at = None, False, 'coerce_subset_groups never hands `%s` to the new group: a version-1 session loses the %s of its subsets' % (src, attr), f.where
+        for st in ast.walk(loops[0]):
+            if isinstance(st, ast.Assign) and unparse(st.value) == src and isinstance(st.targets[0], ast.Attribute) and st.targets[0].attr == attr:
+                how, ok = 'assigned', True
+            elif isinstance(st, ast.Call):
+                for k in st.keywords:
+                    if k.arg is not None and unparse(k.value) == src:
+                        g = dc.resolve_func(call_name(st)) if isinstance(st.func, ast.Attribute) else None
+                        if g is None:
+                            raise AnalysisError('coerce_subset_groups: `%s` is passed to %s, which is not resolved' % (src, unparse(st.func)))
+                        how = 'passed to %s(%s=...)' % (g.construct, k.arg)
+                        repl = [n for n in ast.walk(g.node) if isinstance(n, ast.BoolOp) and isinstance(n.op, ast.Or)
+                                and isinstance(n.values[0], ast.Name) and n.values[0].id == k.arg]
+                        from .. import cond
+                        for a_ in ast.walk(g.node):
+                            if isinstance(a_, ast.Assign) and any(isinstance(t, ast.Name) and t.id == k.arg for t in a_.targets):
+                                pc = cond.path_condition(g.node, a_, expand=False) or ('const', True)
+                                if any(x == k.arg for x in cond.atoms(pc)):
+                                    repl.append(a_)
+                        ok = not repl
+                        at = where(f, st)
+                        if repl:
+                            detail = ('coerce_subset_groups passes `%s` to %s parameter %s, which is replaced when falsy (`%s`): a version-1 '
+                                      'session whose subset has an empty %s comes back with the default instead of what was saved'
+                                      % (src, g.construct, k.arg, norm(repl[0]), attr))
+        ctx.ob(R, '%s %s' % (f.construct, attr), 'the %s of the old subset reaches the group unchanged (%s)' % (attr, how), ok, detail=detail, where=at)
